@@ -381,6 +381,51 @@ def run(ctx):
                 ctx.oracle_fail("unexpected files in the mesh directory (a label was written under another name)",
                                 {"unexpected": sorted(extra), "rows": rows})
             ctx.case(("links", json.dumps(rows), nocolon))
+            # ---- (e2) a second run over the same directory: labels given again, given twice, or spelled differently
+            # ("007"); the tool creates each file exclusively, so the model (Mesh.links) says where the run stops and
+            # what the directory holds afterwards
+            from neuroglancer_scripts.accessor import DataAccessError
+            rows2 = []
+            pool = [int(r[0]) for r in rows] + [3, 5, 2**40]
+            for _ in range(rng.randrange(1, 5)):
+                lab = rng.choice(pool)
+                text = str(lab) if rng.random() < 0.8 else "00" + str(lab)
+                rows2.append([text] + [rng.choice(fragment_names) for _ in range(rng.randrange(0, 3))])
+            with open(cpath, "w", newline="", encoding=csv_encoding) as f:
+                csv.writer(f).writerows(rows2)
+            failed = False
+            try:
+                link_mesh_fragments.make_mesh_fragment_links(cpath, dest, no_colon_suffix=nocolon, options=opts)
+            except DataAccessError:
+                failed = True
+            except Exception as exc:  # noqa
+                ctx.oracle_fail(f"link-mesh-fragments (second run) raised {type(exc).__name__}: {exc}",
+                                {"rows": rows, "rows2": rows2})
+                continue
+            tok = {n: f"f{i}" for i, n in enumerate(fragment_names)}
+            ents, bad = [], False
+            for fname in sorted(os.listdir(os.path.join(dest, "mesh"))):
+                if fname in ("m1", "m1.gz"):
+                    continue
+                try:
+                    frs = json.loads(acc.fetch_file("mesh/" + fname))["fragments"]
+                    ents.append("mesh/" + fname + "=" + ".".join(tok[x] for x in frs))
+                except Exception as exc:  # noqa
+                    bad = True
+                    ctx.oracle_fail("fragment-link file unreadable after a second run",
+                                    {"file": fname, "error": type(exc).__name__, "rows": rows, "rows2": rows2})
+                    continue
+                label = int(fname.split(":")[0])
+                if frs not in [r[1:] for r in rows + rows2 if int(r[0]) == label]:
+                    ctx.oracle_fail("fragment-link file lists fragments that no row gave for its label",
+                                    {"file": fname, "got": frs, "rows": rows, "rows2": rows2})
+            if not bad:
+                reqs.append("mesh-links mesh %d %s" % (int(nocolon), ";".join(
+                    r[0] + ":" + ".".join(tok[x] for x in r[1:]) for r in rows + rows2)))
+                meta.append(("links-run", {"rows": rows, "rows2": rows2, "nocolon": nocolon},
+                             ("abort " if failed else "ok ") + "|".join(sorted(ents))))
+            ctx.case(("links-rerun", failed, len(rows2)))
+            ctx.bump("link_second_runs_aborted" if failed else "link_second_runs_completed")
         finally:
             shutil.rmtree(tmp, ignore_errors=True)
     if ctx.driver_ok and reqs:
